@@ -57,11 +57,35 @@ func headerCond(g an.Cond) (name, op, val string, ok bool) {
 	return
 }
 
+// guardSummary: the header tests that hold on every way to block b — branch
+// conditions of fn, and, where fn acts on the answer of a routing helper
+// (`switch routeFor(r.Header) {…}`), the helper's own tests for that answer.
 func guardSummary(fn *ssa.Function, b *ssa.BasicBlock) []string {
+	paths, ok := an.ReachCondsDeep(fn, b)
+	if !ok || len(paths) == 0 {
+		return nil
+	}
+	count := map[string]int{}
+	var order []string
+	for _, cs := range paths {
+		seen := map[string]bool{}
+		for _, g := range cs {
+			if n, op, v, ok := headerCond(g); ok {
+				k := fmt.Sprintf("%s%s%q", n, op, v)
+				if !seen[k] {
+					seen[k] = true
+					if count[k] == 0 {
+						order = append(order, k)
+					}
+					count[k]++
+				}
+			}
+		}
+	}
 	var out []string
-	for _, g := range an.Guards(fn, b) {
-		if n, op, v, ok := headerCond(g); ok {
-			out = append(out, fmt.Sprintf("%s%s%q", n, op, v))
+	for _, k := range order {
+		if count[k] == len(paths) {
+			out = append(out, k)
 		}
 	}
 	return out
